@@ -12,14 +12,11 @@
      key    encode_value_as_key of the indexed columns (src/encoding/key.rs, Model/Key.v `enc`;
             NULL has its own prefix) ++ the 8 bytes of the row id; value = the row id.
      INSERT (insert.rs:1070)   inserts that key for every row, NULLs included.
-     DELETE (delete.rs:594)    deletes the key WITHOUT the row-id suffix (only when no indexed
-            column is NULL): the entry written by INSERT is never found.
-     UPDATE (update.rs:1795)   multi-pass path, some indexed column assigned: deletes the old key
-            and inserts the new key, both WITHOUT suffix, the value being the PRIMARY KEY value
-            of the row ("key already exists" is ignored); the one-pass path (`WHERE pk = literal`,
-            update.rs:1316) returns before any index maintenance.
-     CREATE INDEX (ddl.rs:520) back-fills from ALL B-tree entries (tombstones included), skipping
-            rows with a NULL in an indexed column.
+     DELETE (delete.rs, since 653471d)  deletes that key (with the row-id suffix) for every selected row.
+     UPDATE (update.rs, since f7aa3d3)  some indexed column assigned (then the statement takes the
+            multi-pass path): deletes the old key and inserts the new key, both with the suffix.
+     CREATE INDEX (ddl.rs, since 772f5ce) back-fills from ALL B-tree entries -- tombstones
+            included --, NULLs included.
    SELECT (optimizer/index_selection.rs:117, database.rs:1931): the first `column = literal`
      found in the AND-tree of the WHERE clause (non-negative integer literal) whose column is the
      first column of an index turns the query into a prefix scan of that index: cursor_seek(prefix),
@@ -107,24 +104,17 @@ Inductive tstmt :=
 Definition ins_six (r : row) (rid : Z) (s : nat) (ix : sidx) : sidx :=
   sidx_ins (ktuple (slot_cols s) r ++ rid8 rid) rid ix.
 Definition del_six (sel : list entry) (s : nat) (ix : sidx) : sidx :=
-  fold_left (fun a e => if all_nn (slot_cols s) (e_row e) then sidx_del (ktuple (slot_cols s) (e_row e)) a else a) sel ix.
+  fold_left (fun a e => sidx_del (ktuple (slot_cols s) (e_row e) ++ rid8 (e_id e)) a) sel ix.
 Definition slot_mod (sets : list (nat * value)) (s : nat) : bool := existsb (modified sets) (slot_cols s).
 Definition upd_six (sets : list (nat * value)) (sel : list entry) (s : nat) (ix : sidx) : sidx :=
   if slot_mod sets s then
     fold_left (fun a e =>
       let old := e_row e in let new := upd_row sets old in
-      let a1 := if all_nn (slot_cols s) old then sidx_del (ktuple (slot_cols s) old) a else a in
-      if all_nn (slot_cols s) new
-      then match stored_pk (s_p schA) new with Some k => sidx_ins (ktuple (slot_cols s) new) k a1 | None => a1 end
-      else a1) sel ix
+      sidx_ins (ktuple (slot_cols s) new ++ rid8 (e_id e)) (e_id e)
+               (sidx_del (ktuple (slot_cols s) old ++ rid8 (e_id e)) a)) sel ix
   else ix.
 Definition backfill (s : nat) (es : list entry) : sidx :=
-  fold_left (fun a e => if all_nn (slot_cols s) (e_row e)
-                        then sidx_ins (ktuple (slot_cols s) (e_row e) ++ rid8 (e_id e)) (e_id e) a else a) es [].
-
-(* one-pass UPDATE? (ConstrImpl.do_update takes that path) *)
-Definition onepass (st : dstate) (sets : list (nat * value)) (w : option expr) : bool :=
-  match pk_probe (s_p schA) (d_p st) w with Some _ => negb (key_mod_from (s_p schA) 0 sets) | None => false end.
+  fold_left (fun a e => sidx_ins (ktuple (slot_cols s) (e_row e) ++ rid8 (e_id e)) (e_id e) a) es [].
 
 (* ------------------------------------------------------------------ SELECT *)
 Definition lit_ok (v : value) : bool := match v with VInt z => 0 <=? z | VNull => true | _ => false end.
@@ -208,9 +198,8 @@ Definition step_a (a : astate) (s : tstmt) : option bool * astate :=
       end
   | TUpd sets w =>
       let sel := select_rows (s_p schA) (d_p (a_d a)) w in
-      let one := onepass (a_d a) sets w in
       match impl_step schA (a_d a) (SUpd TP sets w) with
-      | (Some true, d') => (Some true, mkA d' (if one then a_six a else map_slots (upd_six sets sel) 0 (a_six a)))
+      | (Some true, d') => (Some true, mkA d' (map_slots (upd_six sets sel) 0 (a_six a)))
       | (o, d') => (o, mkA d' (a_six a))
       end
   | TCreate s =>
